@@ -3,10 +3,10 @@
 package rules
 
 import (
-	"os"
-	"runtime/debug"
 	"fmt"
 	"go/token"
+	"os"
+	"runtime/debug"
 	"sort"
 	"strings"
 
